@@ -1,7 +1,13 @@
-"""C15, last clause ("an enabled event trace lists exactly the executed events in execution order"), on
-the REAL code: small lines simulated in several consecutive runs, some traced and some not; the trace
-kept by the environment (and the exported JSON) is compared with the events observed by wrapping
-Environment.step.  HOME is redirected to a scratch directory for the export."""
+"""C15 on the REAL code.
+`event_trace`: last clause ("an enabled event trace lists exactly the executed events in execution order"):
+small lines simulated in several consecutive runs, some traced and some not; the trace kept by the
+environment (and the exported JSON) is compared with the events observed by wrapping Environment.step
+(HOME is redirected to a scratch directory for the export); records of batches.
+`coinciding_occurrences`: "exactly one record per occurrence" when several occurrences at ONE instant yield
+EQUAL datapoints (equally named machines failing together, a zero-length work order accepted repeatedly,
+equally named schedules switching together, an unlimited pool topped up twice).
+`shared_manager`: one ResourceManager handed to a System that is created anew for every replication: every
+System's own log mirrors the pools after each of its events, stamped with its own clock."""
 import json
 import os
 import random
@@ -133,3 +139,225 @@ def event_trace(seed, tier):
             wit.append({'kind': 'batch-record-value', 'record': repr(bad[0][:3]), 'worth_of_the_batch_at_that_moment': bad[0][3]})
             break
     return n, wit, {'models': n, 'traced_events_compared': total, 'batch_records_checked': batch_records}
+
+
+def _watch(env, after_event):
+    """observe every add_datapoint CALL of `env` (label, sub-label -> datapoints in call order) and call
+    `after_event()` after every executed event"""
+    calls = {}
+    orig_add, orig_step = env.add_datapoint, env.step
+
+    def add_datapoint(list_label, sub_label, datapoint):
+        calls.setdefault((list_label, sub_label), []).append(datapoint)
+        return orig_add(list_label, sub_label, datapoint)
+
+    def step():
+        r = orig_step()
+        after_event()
+        return r
+    env.add_datapoint = add_datapoint
+    env.step = step
+    return calls
+
+
+def _series_vs_calls(env, calls):
+    """the stored series are exactly the datapoints handed in, one entry per call, in call order"""
+    data = env.simulation_data
+    for (label, sub), dps in calls.items():
+        got = list(data.get(label, {}).get(sub, []))
+        if got != dps:
+            return (f'{len(dps)} datapoints were recorded under [{label!r}][{sub!r}] (add_datapoint calls) but the series '
+                    f'holds {len(got)}: calls {dps[:6]}, series {got[:6]}')
+    for label, subs in data.items():
+        for sub, got in subs.items():
+            if (label, sub) not in calls and len(got):
+                return f'series [{label!r}][{sub!r}] holds {len(got)} entries nobody recorded through add_datapoint'
+    return None
+
+
+def coinciding_occurrences(seed, tier):
+    import impl
+    from simprocesd.model import System, EventType
+    from simprocesd.model.factory_floor import Source, Sink, PartProcessor, Maintainer, ActionScheduler
+    impl.CTX = None
+    rng = random.Random(f'c15co-{seed}-{tier}')
+    n = 6 if tier == 'quick' else 40
+    wit = []
+    occurrences = 0
+    equal = {}          # label -> how often a datapoint equal to the previous one of its series was recorded
+    for t in range(n):
+        random.seed(seed * 1000 + t)
+        k = rng.choice([2, 2, 3])
+        s = System()
+        env = s.env
+        rm = s.resource_manager
+        rm.add_resources('air', float('inf'))
+        budget = rng.choice([2, 4, 40])
+        src = Source('source', cycle_time=1, starting_parts=budget)
+        stations = [PartProcessor('station', [src], cycle_time=rng.choice([1, 2])) for _ in range(k)]
+        sink = Sink('sink', stations)
+        press = PartProcessor('press')
+        crew = Maintainer('crew')
+        sched_plan = [(rng.choice([2, 3]), 'work'), (rng.choice([1, 2]), 'rest')]
+        shifts = [ActionScheduler(list(sched_plan), name='shift') for _ in range(rng.choice([1, 2, 2]))]
+        failures, accepted, transitions, topups = [], [], [], []
+        for st in stations:
+            st.add_shutdown_callback(lambda m, is_failure, lost, failures=failures, env=env:
+                                     failures.append((env.now, lost.id if lost is not None else None)) if is_failure else None)
+        for sh in shifts:
+            sh.register_object(object(), lambda sch, obj, time, state, transitions=transitions: transitions.append((time, state)))
+        state = {'initialised': False}
+
+        def occurred(env=env, s=s, failures=failures, accepted=accepted, transitions=transitions, topups=topups, state=state):
+            """what happened (seen through callbacks and return values) against what the log holds"""
+            d = s.simulation_data
+
+            def series(label, sub):
+                return list(d.get(label, {}).get(sub, []))
+            got = series('device_failure', 'station')
+            if sorted(got, key=repr) != sorted(failures, key=repr):
+                return (f'{len(failures)} failure(s) of the machines named "station" happened (time, lost part) = {failures} '
+                        f'but the device_failure records are {got}')
+            if len(series('enter_queue', 'crew')) != len(accepted):
+                return (f'{len(accepted)} work orders were accepted at {accepted} but there are '
+                        f'{len(series("enter_queue", "crew"))} enter_queue record(s): {series("enter_queue", "crew")}')
+            if sorted(series('schedule_update', 'shift'), key=repr) != sorted(transitions, key=repr):
+                return (f'the schedules named "shift" made the transitions {transitions} but the schedule_update records '
+                        f'are {series("schedule_update", "shift")}')
+            if state['initialised'] and len(series('resource_update', 'air')) != 1 + len(topups):
+                return (f'pool "air" was recorded once at the start and topped up {len(topups)} time(s) at {topups} but has '
+                        f'{len(series("resource_update", "air"))} resource_update record(s): {series("resource_update", "air")}')
+            return None
+
+        def after_event(env=env):
+            if wit:
+                return
+            w = _series_vs_calls(env, calls) or occurred()
+            if w:
+                wit.append({'kind': 'one-record-per-occurrence', 'time': env.now, 'model': f'{k} machines named "station", '
+                            f'{len(shifts)} schedule(s) named "shift", a zero-length work order requested repeatedly, an '
+                            f'unlimited pool topped up twice at one instant', 'finding': w[:700]})
+        calls = _watch(env, after_event)
+        try:
+            s.simulate(0, print_summary=False)
+            state['initialised'] = True
+            horizon = rng.choice([12, 20])
+            tf = rng.choice([3, 5, horizon - 2])       # early: the machines hold parts; late and a small budget: all idle
+            for st in stations:
+                st.schedule_failure(tf, 'breaks down')
+            tw = rng.choice([1, 4, 7])
+
+            def ask(accepted=accepted, env=env, crew=crew, press=press):
+                if crew.create_work_order(press, 'inspect', 'routine'):
+                    accepted.append(env.now)
+            for _ in range(rng.choice([2, 3])):
+                env.schedule_event(tw, -1, ask, EventType.OTHER_LOW_PRIORITY, 'inspection')
+            tc = rng.choice([2, 6])
+
+            def topup(rm=rm, env=env, topups=topups):
+                for _ in range(2):
+                    rm.add_resources('air', 1)
+                    topups.append(env.now)
+            env.schedule_event(tc, -1, topup, EventType.OTHER_LOW_PRIORITY, 'top up')
+            s.simulate(horizon, print_summary=False)
+            after_event()
+            if not wit:
+                for label in ('start_work_order', 'finish_work_order'):
+                    got = s.simulation_data.get(label, {}).get('crew', [])
+                    if len(got) != len(accepted):
+                        wit.append({'kind': 'one-record-per-occurrence', 'time': env.now,
+                                    'finding': f'{len(accepted)} zero-length work orders were accepted at {accepted} and none is '
+                                               f'pending, but there are {len(got)} {label} record(s): {got}'})
+                        break
+        except Exception as e:
+            wit.append({'kind': 'one-record-per-occurrence-crash', 'raised': f'{type(e).__name__}: {e}'[:300]})
+        occurrences += len(failures) + len(accepted) + len(transitions) + len(topups)
+        for (label, sub), dps in calls.items():
+            c = sum(1 for a, b in zip(dps, dps[1:]) if a == b)
+            if c:
+                equal[label] = equal.get(label, 0) + c
+        if wit:
+            break
+    return n, wit, {'coinciding_models': n, 'coinciding_occurrences_checked': occurrences,
+                    'datapoints_equal_to_their_predecessor': dict(sorted(equal.items()))}
+
+
+def shared_manager(seed, tier):
+    import impl
+    from simprocesd.model import System, ResourceManager
+    from simprocesd.model.factory_floor import Source, Sink, PartProcessor
+    impl.CTX = None
+    rng = random.Random(f'c15rm-{seed}-{tier}')
+    n = 4 if tier == 'quick' else 30
+    wit = []
+    events = [0]
+    for t in range(n):
+        rm = ResourceManager()
+        pools = {'fixture': rng.choice([1, 2]), 'jig': rng.choice([1, 3])}
+        for name, c in pools.items():
+            rm.add_resources(name, c)
+        reps = rng.choice([2, 3])
+        budget = rng.choice([3, 5])
+        cyc = rng.choice([1, 2])
+        need = [{'fixture': 1}, {'fixture': 1, 'jig': rng.choice([1, 2]) if pools['jig'] > 1 else 1}]
+        for rep in range(reps):
+            random.seed(seed * 1000 + t)
+            s = System(resource_manager=rm)
+            env = s.env
+            src = Source('source', cycle_time=1, starting_parts=budget)
+            ms = [PartProcessor(f'm{i}', [src], cycle_time=cyc, resources_for_processing=dict(need[i])) for i in range(2)]
+            sink = Sink('sink', ms)
+            if rep == reps - 1 and rng.random() < 0.5:
+                rm.add_resources('fixture', 1)          # a change between two replications
+            seen = {}
+
+            def after_event(env=env, s=s, rep=rep, seen=seen):
+                events[0] += 1
+                if wit:
+                    return
+                d = s.simulation_data.get('resource_update', {})
+                for name in pools:
+                    pool = (rm.get_resource_usage(name), rm.get_resource_capacity(name))
+                    ser = d.get(name, [])
+                    w = None
+                    if not ser:
+                        w = f'pool {name!r} is (usage, capacity) = {pool} but this System has no resource_update record of it'
+                    elif tuple(ser[-1][1:]) != pool:
+                        w = f'pool {name!r} is (usage, capacity) = {pool} but this System\'s last resource_update record of it is {ser[-1]}'
+                    elif any(x[0] != env.now for x in ser[seen.get(name, 0):]) and seen.get(name) is not None:
+                        w = f'resource_update records {ser[seen.get(name, 0):]} of pool {name!r} were written at time {env.now} of this System'
+                    elif ser[0][0] != 0:
+                        w = f'the first resource_update record of pool {name!r} is {ser[0]}: not stamped with the start of this System'
+                    seen[name] = len(ser)
+                    if w:
+                        wit.append({'kind': 'shared-resource-manager', 'replication': rep, 'time': env.now,
+                                    'model': 'one ResourceManager handed to a System created anew per replication: source -> '
+                                             'two parallel machines requiring its resources -> sink',
+                                    'finding': w, 'own_log_keys': sorted(map(str, s.simulation_data))})
+                        return
+            calls = _watch(env, after_event)
+            try:
+                s.simulate(rng.choice([6, 10, 40]), print_summary=False)
+                after_event()
+                w = _series_vs_calls(env, calls) if not wit else None
+                if w:
+                    wit.append({'kind': 'shared-resource-manager', 'replication': rep, 'finding': w})
+            except Exception as e:
+                wit.append({'kind': 'shared-resource-manager-crash', 'replication': rep, 'raised': f'{type(e).__name__}: {e}'[:300]})
+            if wit:
+                break
+            # let the run drain so that the next replication starts from free pools or not, as it happens
+        if wit:
+            break
+    return n, wit, {'shared_manager_models': n, 'shared_manager_events_checked': events[0]}
+
+
+def real_code(seed, tier):
+    """all extra checks of C15; returns (evaluations, witnesses, stats)"""
+    total, wit, stats = 0, [], {}
+    for f in (event_trace, coinciding_occurrences, shared_manager):
+        k, w, st = f(seed, tier)
+        total += k
+        wit += w
+        stats.update(st)
+    return total, wit, stats
